@@ -57,7 +57,7 @@ package http
 //@   requires workerData != nil && (isnil(*workerData) || typeis(*workerData, "*github.com/ozontech/file.d/plugin/output/http.data"))
 //@   ghost s0 int
 //@   bind sendSplit sentTo := s0
-//@   assume at "statusCode, err = p.sendSplit(0, eventsCount, data.begin, data.outBuf)" s0 == data.begin[0]
+//@   assume at "p.sendSplit(" s0 == data.begin[0]
 //@   callee ForEach(cb)
 //@     requires data != nil && len(data.begin) == 0 && eventsCount == 0 && len(data.outBuf) == 0
 //@     ensures data != nil && len(data.begin) == eventsCount && eventsCount >= 0
